@@ -1,18 +1,18 @@
-\* C11: random behaviours with destructive edits exported for replay
+\* persistence faults: random behaviours exported for replay (directories made unavailable for real)
 CONSTANTS
- Mixes <- MixesSimC11
- StartPaused = {FALSE}
+ Mixes <- MixesPersistSim
+ StartPaused = {FALSE, TRUE}
  Mode = "tws"
  InitTree <- D2
  InitArchive <- D2
- EditVals <- EditsC11x
+ EditVals <- EditsC29
  EditSides = {"alpha", "beta"}
  EventSides = {"alpha", "beta"}
  MaxEdits = 2
  MaxEvents = 1
  MaxFaults = 0
  MaxTicks = 0
- MaxBreaks = 0
+ MaxBreaks = 2
  Export = TRUE
  RunToBlock = TRUE
  Mut = "none"
